@@ -3,6 +3,8 @@ package parser
 import (
 	"fmt"
 	"testing"
+
+	"github.com/huderlem/poryscript/lexer"
 )
 
 // D12: the list of valid font ids in the "unknown fontID" error is produced in map iteration order
@@ -170,4 +172,18 @@ func TestVerifSearch_C07(t *testing.T) {
 	}
 	rec("", 5)
 	fmt.Printf("SEARCH-DONE C07 found=%d\n", found)
+}
+
+// D10: a negative var_name_arg_position in the command config makes the AutoVar operand lookup index out of range
+func TestVerifWitness_D10(t *testing.T) {
+	defer func() {
+		if r := recover(); r != nil {
+			fmt.Printf("WITNESS-FAILS D10 panic: %v\n", r)
+		}
+	}()
+	neg := -1
+	cfg := CommandConfig{AutoVarCommands: map[string]AutoVarCommand{"checkitem": {VarNameArgPosition: &neg}}}
+	p := New(lexer.New("script S { if (checkitem(ITEM_X, 1) == 1) { a } }"), cfg, "", "", 0, nil)
+	_, err := p.ParseProgram()
+	fmt.Printf("WITNESS-PASSES D10 (no panic; err=%v)\n", err)
 }
